@@ -12,6 +12,7 @@ mod storm;
 
 mod arch;
 mod eval;
+mod repro;
 mod sigprim;
 
 use arch::{Built, Span};
@@ -118,8 +119,6 @@ impl Space for Intact {
             if o.sig != "WeakValid" || o.info_sig != "WeakValid" {
                 r.viol("intact signed archive: signature produced by generate_weak_signature is not reported WeakValid", format!("verify_signature: {}, get_info().signature_status: {}", o.sig, o.info_sig));
             }
-        } else if o.sig != "None" {
-            r.viol("intact unsigned archive: verify_signature does not report None", o.sig.clone());
         }
         r.outcome = format!("md5={:?};sig={};", o.md5, o.sig);
         r.count("intact_files_read", o.reads.len() as u64);
@@ -173,7 +172,7 @@ impl Space for AllFiles {
         let mut r = CaseResult::new();
         r.nontrivial = true;
         r.key = format!("allfiles/{}", b.spec.id);
-        match all_files_probe(b, &self.sc, 4_000) {
+        match all_files_probe(b, &self.sc, 3_000) {
             Iso::Done(v) => {
                 let oo = Obs::from_json(&v);
                 if oo.varch_all != Some(true) {
@@ -182,7 +181,7 @@ impl Space for AllFiles {
                 r.outcome.push_str("all_files=returns");
             }
             Iso::Hung => {
-                r.viol("intact archive: SFileVerifyArchive(SFILE_VERIFY_ALL_FILES) never returns (self-deadlock)", "no result within 4 s; SFileVerifyArchive holds the ARCHIVES mutex while it calls SFileVerifyFile, which locks it again");
+                r.viol("intact archive: SFileVerifyArchive(SFILE_VERIFY_ALL_FILES) never returns (self-deadlock)", "no result within 3 s; SFileVerifyArchive holds the ARCHIVES mutex while it calls SFileVerifyFile, which locks it again");
                 r.outcome.push_str("all_files=hangs");
             }
             Iso::Died(d) => {
@@ -555,6 +554,11 @@ fn main() {
         dump(if args.iter().any(|a| a == "thorough") { Tier::Thorough } else { Tier::Quick });
         return;
     }
+    if args.iter().any(|a| a == "--repro") {
+        install_panic_hook();
+        repro::run();
+        return;
+    }
     if let Some(k) = args.iter().position(|a| a == "--find") {
         // --find <archive-id> <offset> [thorough]: index of the `faults` case
         install_panic_hook();
@@ -591,6 +595,19 @@ fn main() {
     c.run_space("sigprim", "");
     {
         let f = Faults::new(c.tier);
+        let mut kinds: Vec<String> = f.built.iter().map(|b| b.spec.protection()).collect();
+        kinds.sort();
+        kinds.dedup();
+        let mut regions: Vec<String> = f.built.iter().flat_map(|b| b.spans.iter().map(|s| s.region.clone())).collect();
+        regions.sort();
+        regions.dedup();
+        c.extra_cov.insert(
+            "axes".into(),
+            json!({"archives": f.built.len(), "format_versions": c.tier.pick(2, 4), "metadata_kinds": kinds.len(), "file_sets": 6, "region_classes": regions.len(),
+                   "protected_offsets": f.cases.len(), "single_byte_fault_values": c.tier.pick(2, 4), "multi_byte_overwrites": 2, "signature_bit_flips_per_byte": 8,
+                   "sigprim_buffers": 11}),
+        );
+        c.extra_cov.insert("metadata_kinds".into(), json!(kinds));
         c.extra_cov.insert("axes_faults".into(), f.axes());
         let s = sigprim::SigPrim::new(c.tier);
         c.extra_cov.insert("axes_sigprim".into(), s.axes());
